@@ -41,4 +41,9 @@ func init() {
 			Rules: []*RuleResult{c.rule("R5", ruleR5), c.rule("R7", ruleR7)},
 			Explain: "partial"}
 	}}
+	properties["C02"] = propDef{run: func(c *Ctx) *PropertyRun {
+		return &PropertyRun{Level: "other", Trusted: trustedBase, Assume: commonAssumptions,
+			Rules: []*RuleResult{c.rule("R10", ruleR10)},
+			Explain: "partial"}
+	}}
 }
